@@ -3,7 +3,7 @@ what it created and nothing outside its own path.
 
 Every case runs the real Filer in a fresh sandbox directory tree under core.scratch_dir():
     <root>/head   headDirPath          <root>/alt   AltHeadDirPath (class attribute of a local subclass, never ~)
-    <root>/tmp    TempHeadDir (mkdtemp makes <root>/tmp/hio_XXXX_test, canonicalised to tmp/T in observations)
+    <root>/tmp    TempHeadDir (mkdtemp makes <root>/tmp/hio_XXXX_test, canonicalised to tmp/T0, tmp/T1, ... in order of creation)
 The tree is snapshotted before the constructor, after it, after an optional owner step (a file or directory made at
 .path, as a subclass such as an LMDB or socket owner would) and after close(clear=True).
 """
@@ -20,8 +20,11 @@ RULE = ("name and base built from 0-3 segments out of {a, b, x.y, .h, .., ., '',
         "empty, hidden, climbing and extension-bearing segments, sometimes absolute) x all 16 combinations of temp, "
         "clean, filed, extensioned x pre-populated sandbox (nothing / file or directory already at the target path, "
         "with siblings / the tail directory replaced by a file so that the alt head is used / something at the alt "
-        "path) x owner step; thorough enumerates all 16 flag sets x all name/base pairs of <= 2 segments; non-trivial "
-        "= a dotted segment ('.', '..' or '...'), or temp with filed, extensioned or clean")
+        "path) x owner step; a history stream runs the constructor and then 1-5 reopen(temp=None/True/False, fext, clear, "
+        "reuse, clean) / close(clear) calls on one Filer with a sibling Filer's file and unrelated files in the shared "
+        "directories, snapshotting after every call; thorough enumerates all 16 flag sets x all name/base pairs of <= 2 segments; non-trivial "
+        "= a dotted segment ('.', '..' or '...'), or temp with filed, extensioned or clean, or a history of >= 2 calls or "
+        "with a clearing temp flip")
 MODELLED = ["POSIX path strings as segment lists split at '/' (os.path.join/normpath/abspath/split/splitext/isabs)",
             "the file system as a set of (path, is-file) entries; os.makedirs/mkdir/remove/shutil.rmtree/os.open on it",
             "tempfile.mkdtemp as creation of one fresh directory tmp/T; os.access as always true (the owner); chmod as no-op",
@@ -76,7 +79,7 @@ def directed():
         out.append(dict(c, pre=[["head/hio", True]]))
         out.append(dict(c, pre=[["head/hio", True], [expected_rel(c, alt=True), bool(filed)]]))
     out.append(dict(mk("x"), pre=[["head/hio", True], ["alt/.hio", True]]))
-    return out
+    return out + directed_histories()
 
 
 def rand_path(rng):
@@ -116,8 +119,60 @@ def random_case(rng):
     return dict(c, pre=pre)
 
 
+def with_siblings(c):
+    """unrelated files and a sibling Filer's file in the directories the Filer's persistent paths share"""
+    pre = list(c["pre"])
+    for clean in (False, True):
+        p = expected_rel(dict(c, clean=clean))
+        d = posixpath.dirname(p)
+        if d.startswith("head/hio"):
+            pre += [[d + "/sib.text", True], [d + "/other", True]]
+    return dict(c, pre=pre)
+
+
+def hist(c, *hops):
+    return dict(with_siblings(c), hops=[list(h) for h in hops])
+
+
+def directed_histories():
+    R, C = "reopen", "close"
+    out = []
+    for filed, ext in [(True, False), (False, True), (False, False)]:
+        per = mk("x", "b", filed=filed, ext=ext)
+        tmp = mk("x", "b", temp=True, filed=filed, ext=ext)
+        out += [
+            hist(per, (R, True, None, True, False, False)),                    # seeded A: persistent -> temp with clear
+            hist(tmp, (R, False, None, True, False, False)),                   # seeded B: temp -> persistent with clear
+            hist(per, (R, True, None, False, True, False), (C, True)),         # D32c: reuse across a temp flip, then clear
+            hist(tmp, (R, False, None, False, True, False), (C, True)),        # D32c the other way
+            hist(per, (R, None, None, True, False, False), (C, True)),
+            hist(tmp, (R, None, None, True, False, False), (R, True, None, True, True, False), (C, True)),
+            hist(per, (C, False), (R, None, None, False, True, False), (R, None, "db", False, False, False), (C, True)),
+            hist(per, (R, None, None, False, False, True), (R, None, None, True, False, True), (C, True)),
+            hist(per, (R, True, None, False, False, False), (R, False, None, True, False, False), (C, True)),
+        ]
+    # a reopen that raises: the new extension's target already exists as a directory
+    c = mk("x", "b", filed=True)
+    out.append(dict(hist(c, (R, None, "db", True, False, False), (C, True)), pre=[["head/hio/b/x.db", False]]))
+    return out
+
+
+def random_history(rng):
+    c = mk(rng.choice(["x", "x", "x.y", "a/x", "x", ".h"]), rng.choice(["b", "b", "", "b/c"]),
+           rng.random() < 0.4, rng.random() < 0.25, rng.random() < 0.5, rng.random() < 0.35, "text")
+    hops = []
+    for _ in range(rng.choice([1, 2, 2, 3, 4, 5])):
+        if rng.random() < 0.7:
+            hops.append(["reopen", rng.choice([None, None, True, False]), rng.choice([None, None, None, "db"]),
+                         rng.random() < 0.6, rng.random() < 0.35, rng.random() < 0.2])
+        else:
+            hops.append(["close", rng.random() < 0.7])
+    return dict(with_siblings(c), hops=hops)
+
+
 def generate(rng, tier):
     out = [random_case(rng) for _ in range(900 if tier == "quick" else 6000)]
+    out += [random_history(rng) for _ in range(300 if tier == "quick" else 3000)]
     if tier == "thorough":
         segs = ["a", "x.y", "..", ".", "", ".h"]
         paths = [""] + segs[:3] + ["/".join(p) for p in itertools.product(segs, repeat=2)]
@@ -130,20 +185,31 @@ def generate(rng, tier):
 
 # ----------------------------------------------------------------------------- implementation
 
-def _snapshot(root, tmpname):
+def _canon(parts, tmap):
+    """name the mkdtemp directories T0, T1, ... in order of first appearance"""
+    if len(parts) >= 2 and parts[0] == "tmp":
+        if parts[1] not in tmap:
+            tmap[parts[1]] = "T%d" % len(tmap)
+        parts = [parts[0], tmap[parts[1]]] + parts[2:]
+    return parts
+
+
+def _snapshot(root, tmap):
     out = []
     for d, dirs, files in os.walk(root):
+        dirs.sort()
         for x in dirs:
             out.append([os.path.relpath(os.path.join(d, x), root), False])
-        for x in files:
+        for x in sorted(files):
             out.append([os.path.relpath(os.path.join(d, x), root), True])
-    res = []
-    for rel, isf in out:
-        parts = rel.split(os.sep)
-        if tmpname and len(parts) >= 2 and parts[0] == "tmp" and parts[1] == tmpname:
-            parts[1] = "T"
-        res.append([parts, isf])
-    return sorted(res)
+    return sorted([_canon(rel.split(os.sep), tmap), isf] for rel, isf in out)
+
+
+def _relpath(path, root, tmap):
+    if path is None:
+        return None
+    rel = os.path.relpath(path, root).split(os.sep)
+    return [] if rel == ["."] else _canon(rel, tmap)
 
 
 def run_impl(case):
@@ -158,6 +224,7 @@ def run_impl(case):
         AltHeadDirPath = os.path.join(root, "alt")
         TempHeadDir = os.path.join(root, "tmp")
 
+    filer = None
     try:
         for rel, isf in case["pre"]:
             full = os.path.join(root, rel)
@@ -169,47 +236,58 @@ def run_impl(case):
                     f.write("pre")
             else:
                 os.makedirs(full, exist_ok=True)
-        obs = {"pre": _snapshot(root, None)}
-        filer, tmpname = None, None
+        tmap = {}
+        obs = {"pre": _snapshot(root, tmap)}
         try:
             filer = SandboxFiler(name=case["name"], base=case["base"], temp=case["temp"],
                                  headDirPath=os.path.join(root, "head"), clean=case["clean"], filed=case["filed"],
                                  extensioned=case["ext"], fext=case["fext"], reopen=True)
-            rel = os.path.relpath(filer.path, root).split(os.sep)
-            if case["temp"] and len(rel) >= 2 and rel[0] == "tmp":
-                tmpname = rel[1]; rel[1] = "T"
-            if rel == ["."]:
-                rel = []
-            obs["open"] = ["ok", rel]
+            obs["mid"] = _snapshot(root, tmap)
+            obs["open"] = ["ok", _relpath(filer.path, root, tmap)]
         except Exception as ex:
             obs["open"] = ["exc", exn_kind(ex)]
-            made = [x for x in os.listdir(os.path.join(root, "tmp"))]
-            tmpname = made[0] if made else None
-        obs["mid"] = _snapshot(root, tmpname)
-        if filer is not None:
+            obs["mid"] = _snapshot(root, tmap)
+        if filer is not None and case.get("hops"):
+            obs["hops"] = []
+            for hop in case["hops"]:
+                try:
+                    if hop[0] == "close":
+                        filer.close(clear=hop[1])
+                    else:
+                        _, temp, fext, clear, reuse, clean = hop
+                        filer.reopen(temp=temp, fext=fext, clear=clear, reuse=reuse, clean=clean)
+                    r = ["ok", None]
+                except Exception as ex:
+                    r = ["exc", exn_kind(ex)]
+                snap = _snapshot(root, tmap)
+                obs["hops"].append({"res": r, "path": _relpath(filer.path, root, tmap), "snap": snap})
+                if r[0] != "ok":
+                    break          # the history stops at the first exception
+        elif filer is not None:
             p = filer.path
             if not os.path.lexists(p) and os.path.isdir(os.path.dirname(p)):
                 if case["owner"] == 1:
                     open(p, "w").close()
                 elif case["owner"] == 2:
                     os.mkdir(p)
-            obs["owned"] = _snapshot(root, tmpname)
+            obs["owned"] = _snapshot(root, tmap)
             try:
                 filer.close(clear=True)
                 obs["clear"] = ["ok", None]
             except Exception as ex:
                 obs["clear"] = ["exc", exn_kind(ex)]
-                if filer.file and not filer.file.closed:
-                    filer.file.close()
-            obs["post"] = _snapshot(root, tmpname)
+            obs["post"] = _snapshot(root, tmap)
         return obs
     finally:
+        if filer is not None and filer.file and not filer.file.closed:
+            filer.file.close()
         shutil.rmtree(root, ignore_errors=True)
 
 
 # ----------------------------------------------------------------------------- oracle
 
-H, A, T = ["head"], ["alt"], ["tmp", "T"]
+H, A, T = ["head"], ["alt"], ["tmp", "T0"]
+TMP = ["tmp"]
 
 
 def _under(head, p, strict=True):
@@ -226,7 +304,7 @@ def oracle(case, obs):
     for p in map(list, changed):
         if case["temp"]:
             if not _under(T, p, strict=False):
-                return f"constructor created or deleted {'/'.join(p)} outside its temp head tmp/T"
+                return f"constructor created or deleted {'/'.join(p)} outside its temp head tmp/T0"
         elif not (_under(H, p) or _under(A, p)):
             return f"constructor created or deleted {'/'.join(p)} outside its head directory"
     if obs["open"][0] != "ok":
@@ -235,6 +313,8 @@ def oracle(case, obs):
     own = T if case["temp"] else (H if _under(H, P, strict=False) or not _under(A, P, strict=False) else A)
     if not _under(own, P):
         return f".path {'/'.join(P) or '(sandbox root)'} is not inside its head directory {'/'.join(own)}"
+    if "hops" in obs:
+        return _oracle_history(case, obs, P)
     if obs["clear"][0] != "ok":
         return None   # close raised because the owner put a directory at an extensioned path: nothing the Filer made there
     owned, post = set(_paths(obs["owned"])), set(_paths(obs["post"]))
@@ -255,7 +335,50 @@ def oracle(case, obs):
     return None
 
 
+def _temp_head(P):
+    return P[:2] if P is not None and len(P) >= 2 and P[0] == "tmp" else None
+
+
+def _oracle_history(case, obs, P):
+    """after every reopen/close: deletions only at or below the Filer's own previous .path (its own mkdtemp directory
+    when that path is a temp one) or, for reopen(clean=True), inside the clean tail; creations only inside a head or
+    a temp directory; after a clear the previous path (or its whole mkdtemp directory) is gone"""
+    before = set(_paths(obs["mid"]))
+    for n, (hop, o) in enumerate(zip(case["hops"], obs["hops"])):
+        after = set(_paths(o["snap"]))
+        if o["res"][0] != "ok":
+            return None
+        clear = hop[1] if hop[0] == "close" else hop[3]
+        clean = hop[0] == "reopen" and hop[5]
+        what = f"hop {n} {hop[0]}({', '.join(map(str, hop[1:]))})"
+        th = _temp_head(P)
+        for p in map(list, sorted(before - after)):
+            ok = clear and P is not None and (_under(th, p, strict=False) if th else _under(P, p, strict=False))
+            ok = ok or (clean and (_under(H + ["hio", "clean"], p, strict=False) or _under(A + [".hio", "clean"], p, strict=False)))
+            if not ok:
+                return (f"{what} deleted {'/'.join(p)}, which is not at or below the Filer's own previous path "
+                        f"{'/'.join(P or [])}")
+        for p in map(list, sorted(after - before)):
+            if hop[0] == "close":
+                return f"{what} created {'/'.join(p)}"
+            if not (_under(H, p) or _under(A, p) or _under(TMP, p)):
+                return f"{what} created {'/'.join(p)} outside every head directory"
+        newP = o["path"]
+        if clear and P is not None:
+            if th:
+                left = [q for q in after if _under(th, list(q), strict=False)]
+                if left:
+                    return f"{what} cleared a temp Filer but left {'/'.join(left[0])} of its temp head behind"
+            elif tuple(P) in after and not (hop[0] == "reopen" and newP == P):
+                return f"{what} left the previous path {'/'.join(P)} in place"
+        P, before = newP, after
+    return None
+
+
 def nontrivial(case, obs):
+    if case.get("hops"):
+        hs = case["hops"]
+        return len(hs) >= 2 or any(h[0] == "reopen" and h[1] is not None and h[3] for h in hs)
     segs = (case["name"] + "/" + case["base"]).split("/")
     return any(s in (".", "..", "...") for s in segs) or (case["temp"] and (case["filed"] or case["ext"] or case["clean"]))
 
@@ -265,6 +388,11 @@ def classify(case, obs, why):
 
 
 def shrink(case):
+    hs = case.get("hops")
+    if hs:
+        for i in range(len(hs)):
+            if len(hs) > 1:
+                yield dict(case, hops=hs[:i] + hs[i + 1:])
     if case["pre"]:
         yield dict(case, pre=[])
     for k in ("temp", "clean", "filed", "ext"):
@@ -299,11 +427,23 @@ def to_coq(case, obs):
                _path(case["name"].split("/")), _path(case["base"].split("/")), coq_bool(case["temp"]),
                coq_bool(case["clean"]), coq_bool(case["filed"]), coq_bool(case["ext"]), _seg(case["fext"]),
                _path(H), _path(A), _path(T)))
-    ok = obs["open"][0] == "ok"
+    ok = obs["open"][0] == "ok" and "hops" not in obs
+    hops, hobs = [], []
+    for hop, o in zip(case.get("hops") or [], obs.get("hops") or []):
+        if hop[0] == "close":
+            hops.append(f"(Path.HClose {coq_bool(hop[1])})")
+        else:
+            _, temp, fext, clear, reuse, clean = hop
+            hops.append("(Path.HReopen %s %s %s %s %s)" % (
+                "None" if temp is None else f"(Some {coq_bool(temp)})",
+                "None" if fext is None else f"(Some {_seg(fext)})", coq_bool(clear), coq_bool(reuse), coq_bool(clean)))
+        hobs.append("(%s, %s, %s)" % (coq_res(o["res"], lambda _: "tt"),
+                                      "None" if o["path"] is None else f"(Some {_path(o['path'])})", _fs(o["snap"])))
     return ("{| Path.k_cfg := %s; Path.k_pre := %s; Path.k_open := %s; Path.k_mid := %s; Path.k_owner := %s; "
-            "Path.k_clear := %s; Path.k_post := %s |}" % (
+            "Path.k_clear := %s; Path.k_post := %s; Path.k_hops := %s; Path.k_hobs := %s |}" % (
                 cfg, _fs(obs["pre"]), coq_res(obs["open"], _path), _fs(obs["mid"]), coq_nat(case["owner"]),
-                coq_res(obs["clear"], lambda _: "tt") if ok else "(Ok tt)", _fs(obs["post"]) if ok else _fs([])))
+                coq_res(obs["clear"], lambda _: "tt") if ok else "(Ok tt)", _fs(obs["post"]) if ok else _fs([]),
+                coq_list(hops, "Path.hop"), coq_list(hobs, "res unit * option Path.path * Path.fsys")))
 
 
 def distribution(cases, obs):
@@ -317,6 +457,10 @@ def distribution(cases, obs):
         d["temp"] += c["temp"]
         d["alt head"] += o["open"][1][:1] == ["alt"]
         d["cleaned"] += bool(set(_paths(o["pre"])) - set(_paths(o["mid"])))
+        if "hops" in o:
+            d["history"] = d.get("history", 0) + 1
+            d["history hops"] = d.get("history hops", 0) + len(o["hops"])
+            continue
         d["owner step"] += o["owned"] != o["mid"]
         d["clear raised"] += o["clear"][0] != "ok"
     return d
